@@ -1,11 +1,180 @@
 /-
   C09 — Padding: exact message‖pad in full blocks, true bit counts, unpad inverts pad.
-  ONLY property theorems (and their non-vacuity examples) live here; helper lemmas are in Proofs/Lemmas.
+  ONLY property theorems (and their non-vacuity examples) live here; helper lemmas are in Proofs/Lemmas/Padding*.
+
+  Reading guide.  `p : Padder` = scheme + block size; `Valid p` = the configurations the property quantifies over
+  (block size a positive multiple of 8; pad length fits a byte for PKCS#7/X9.23; for MD/SHA strengthening w % 4 = 0 and
+  2w+1 ≤ B — below that the real code raises, known finding C09-md-small-block; BLAKE's own block size).
+  `Bytes m` = every element of the list is a byte value.  `effLen m L` = the bit length in force (`L` or 8·|m|).
+  `p.iterblocks st m L padding` = Model of the generator: `.yields` = the blocks, each with the object state
+  (bitcnt, padcnt, padflag) observable at that yield, `.final` = state left behind, `.err` = the exception, if any.
+  A fresh object is `{}` (all counters 0); the theorems are stated for every non-final state where that is true
+  of the code, so that they cover histories.
 -/
-import Model.Padding
-import Spec.Padding
+import Proofs.Lemmas.PaddingUnpad
 namespace Proofs.C09
-open Model Model.Padder
+open Model Model.Padder Spec.Padding Proofs.Lemmas.Padding
+
+/-! ### one padded call -/
+
+/-- the concatenation of the emitted blocks is the message's first L bits followed by exactly the pad the
+    scheme's specification prescribes (as bytes); no exception -/
+theorem blocks_concat (p : Padder) (hv : Valid p) (st : PadState) (hflag : st.padflag = false) (hfresh : st.bitcnt = 0)
+    (m : List Nat) (hm : Bytes m) (L : Option Nat) (hL : effLen m L ≤ 8 * m.length)
+    (hbg : L ≠ none → BitGranular p.scheme) :
+    (p.iterblocks st m L true).err = none ∧
+    ((p.iterblocks st m L true).yields.map (·.1)).flatten = padBytes (specOf p.scheme) p.blocksize m (effLen m L) := by
+  obtain ⟨h1, h2, _⟩ := run_facts p hv st hflag m hm L hL hbg
+  exact ⟨h1, by rw [h2, concat_eq_spec p hv st hfresh m hm L hL hbg]⟩
+
+/-- what is emitted is a byte string again (every value < 256), so block consumers may rely on it -/
+theorem blocks_bytes (p : Padder) (hv : Valid p) (st : PadState) (hflag : st.padflag = false)
+    (m : List Nat) (hm : Bytes m) (L : Option Nat) (hL : effLen m L ≤ 8 * m.length)
+    (hbg : L ≠ none → BitGranular p.scheme) :
+    Bytes (((p.iterblocks st m L true).yields.map (·.1)).flatten) := by
+  rw [(run_facts p hv st hflag m hm L hL hbg).2.1]
+  exact Bytes_append (Bytes_take hm _) (bitsToBytes_Bytes _)
+
+/-- every emitted block has B/8 bytes; only the unpadded scheme's last block may be shorter -/
+theorem blocks_length (p : Padder) (hv : Valid p) (st : PadState) (hflag : st.padflag = false)
+    (m : List Nat) (hm : Bytes m) (L : Option Nat) (hL : effLen m L ≤ 8 * m.length)
+    (hbg : L ≠ none → BitGranular p.scheme) (i : Nat) (h : i < (p.iterblocks st m L true).yields.length) :
+    ((p.iterblocks st m L true).yields[i]).1.length = p.blocklen ∨
+      (p.scheme = .no ∧ i + 1 = (p.iterblocks st m L true).yields.length ∧
+        ((p.iterblocks st m L true).yields[i]).1.length ≤ p.blocklen) :=
+  (run_facts p hv st hflag m hm L hL hbg).2.2.2.1 i h
+
+/-- the number of emitted blocks is the minimum the scheme allows: ⌈(L + shortest pad)/B⌉, and at least one -/
+theorem blocks_minimal (p : Padder) (hv : Valid p) (st : PadState) (hflag : st.padflag = false)
+    (m : List Nat) (hm : Bytes m) (L : Option Nat) (hL : effLen m L ≤ 8 * m.length)
+    (hbg : L ≠ none → BitGranular p.scheme) :
+    (p.iterblocks st m L true).yields.length =
+      max 1 ((effLen m L + minPad p.scheme + p.blocksize - 1) / p.blocksize) := by
+  obtain ⟨_, _, h3, _⟩ := run_facts p hv st hflag m hm L hL hbg
+  obtain ⟨e, h1, h2, h4, _, _, _⟩ := piece_facts p hv m _ hL
+  have hc := loopCount_spec p hv.pos (effLen m L)
+  rw [h3]
+  have hmp := minPad_le p hv
+  have := count_formula p.blocksize (kOf p m L) (rOf p m L) (minPad p.scheme) (effLen m L) hv.pos
+    (by simp only [rOf, kOf]; omega) h2 h4 hc.2.2.2 hmp
+    (decide (p.scheme ≠ .no ∧ ¬ rOf p m L + minPad p.scheme ≤ p.blocksize))
+    (by
+      simp only [decide_eq_true_eq]
+      constructor
+      · exact fun h => h.2
+      · intro h
+        refine ⟨?_, h⟩
+        intro hno
+        rw [hno] at h; simp only [minPad, Nat.add_zero] at h
+        exact h h2)
+  rw [← this, tailBlocks]
+  by_cases hc : p.scheme ≠ .no ∧ ¬ rOf p m L + minPad p.scheme ≤ p.blocksize <;> simp [hc]
+
+/-- the consumed-bit counter reported with block i = the number of message bits up to and including that block
+    (plus what earlier pieces fed), and 0 for a block that carries padding only -/
+theorem bitcnt_at_yield (p : Padder) (hv : Valid p) (st : PadState) (hflag : st.padflag = false)
+    (m : List Nat) (hm : Bytes m) (L : Option Nat) (hL : effLen m L ≤ 8 * m.length)
+    (hbg : L ≠ none → BitGranular p.scheme) (i : Nat) (h : i < (p.iterblocks st m L true).yields.length) :
+    ((p.iterblocks st m L true).yields[i]).2.bitcnt =
+      if i * p.blocksize < effLen m L then st.bitcnt + min (effLen m L) ((i + 1) * p.blocksize) else 0 :=
+  (run_facts p hv st hflag m hm L hL hbg).2.2.2.2.1 i h
+
+/-- the pad-bit counter equals the number of pad bits added (schemes that define it: none, zero, bit, PKCS#7,
+    X9.23): message bits + padcnt = bits emitted; the other schemes leave it untouched -/
+theorem padcnt_law (p : Padder) (hv : Valid p) (st : PadState) (hflag : st.padflag = false) (hpc : st.padcnt = 0)
+    (m : List Nat) (hm : Bytes m) (L : Option Nat) (hL : effLen m L ≤ 8 * m.length)
+    (hbg : L ≠ none → BitGranular p.scheme) :
+    (match p.scheme with
+     | .md _ | .sha _ | .blake _ => (p.iterblocks st m L true).final.padcnt = 0
+     | _ => effLen m L + (p.iterblocks st m L true).final.padcnt
+              = 8 * ((p.iterblocks st m L true).yields.map (·.1)).flatten.length) := by
+  obtain ⟨_, h2, _, _, _, _, _, h8, _⟩ := run_facts p hv st hflag m hm L hL hbg
+  obtain ⟨e, h1, _⟩ := piece_facts p hv m _ hL
+  have hb := tailBytes_bits p hv st m L hL hbg
+  have hlen : 8 * ((p.iterblocks st m L true).yields.map (·.1)).flatten.length
+      = kOf p m L * p.blocksize + 8 * (tailBytes p st m L).length := by
+    rw [h2, List.length_append, List.length_take]
+    have : kOf p m L * p.blocklen ≤ m.length := by simp only [kOf]; omega
+    rw [Nat.min_eq_left this]; simp only [kOf] at *; omega
+  have hr : effLen m L = kOf p m L * p.blocksize + rOf p m L := by simp only [rOf, kOf]; omega
+  cases hs : p.scheme <;> simp only [] <;> rw [h8] <;> simp only [tailPadcnt, hs, hpc] <;>
+    first
+    | rfl
+    | (rw [hlen, hb, hr]; simp only [modelTail, hs, List.length_nil]; omega)
+    | (rw [hlen, hb, hr, ← hs]; omega)
+
+/-- after the call the pad flag is set, and it was set at the tail blocks only -/
+theorem padflag_law (p : Padder) (hv : Valid p) (st : PadState) (hflag : st.padflag = false)
+    (m : List Nat) (hm : Bytes m) (L : Option Nat) (hL : effLen m L ≤ 8 * m.length)
+    (hbg : L ≠ none → BitGranular p.scheme) :
+    (p.iterblocks st m L true).final.padflag = true ∧
+    ∀ i (h : i < (p.iterblocks st m L true).yields.length),
+      ((p.iterblocks st m L true).yields[i]).2.padflag = decide (kOf p m L ≤ i) := by
+  obtain ⟨_, _, _, _, _, h6, h7, _⟩ := run_facts p hv st hflag m hm L hL hbg
+  exact ⟨h7, fun i h => (h6 i h).1⟩
+
+/-! ### unpadding -/
+
+/-- removing the padding from the concatenation of the emitted blocks (on the object that produced them: zero
+    padding needs its `padcnt`) returns exactly the first L bits of the message, last partial byte zero-filled -/
+theorem remove_pad (p : Padder) (hv : Valid p) (st : PadState) (hflag : st.padflag = false)
+    (m : List Nat) (hm : Bytes m) (L : Option Nat) (hL : effLen m L ≤ 8 * m.length)
+    (hbg : L ≠ none → BitGranular p.scheme) :
+    p.remove (p.iterblocks st m L true).final (((p.iterblocks st m L true).yields.map (·.1)).flatten)
+      = .ok (msgBytes m (effLen m L)) :=
+  remove_run p hv st hflag m hm L hL hbg
+
+/-- PKCS#7: `remove` succeeds exactly on the well-padded strings (last byte q, 1 ≤ q ≤ block length, the last q
+    bytes all equal q) and then strips those q bytes; every other string (empty included) raises -/
+theorem pkcs7_remove_iff (p : Padder) (hs : p.scheme = .pkcs7) (st : PadState) (c : List Nat) :
+    ((∃ r, p.remove st c = .ok r) ↔ pkcs7WellPadded p.blocklen c) ∧
+    (∀ r, p.remove st c = .ok r → ∃ q, c.getLast? = some q ∧ r = c.take (c.length - q)) := by
+  have h := remove_pkcs7 p hs st c
+  constructor
+  · rw [← pkcs7Unpad_isSome_iff, ← h]
+    cases p.remove st c <;> simp [okOf]
+  · intro r hr
+    rw [hr] at h
+    simp only [okOf, pkcs7Unpad] at h
+    cases hq : c.getLast? with
+    | none => rw [hq] at h; simp at h
+    | some q =>
+      rw [hq] at h; simp only at h
+      split at h
+      · exact ⟨q, rfl, by simpa using h⟩
+      · simp at h
+
+/-- ANSI X9.23: `remove` succeeds exactly on the well-padded strings (last byte q, 1 ≤ q ≤ block length, the q−1
+    bytes before it zero) and then strips those q bytes; every other string raises -/
+theorem x923_remove_iff (p : Padder) (hs : p.scheme = .x923) (st : PadState) (c : List Nat) :
+    ((∃ r, p.remove st c = .ok r) ↔ x923WellPadded p.blocklen c) ∧
+    (∀ r, p.remove st c = .ok r → ∃ q, c.getLast? = some q ∧ r = c.take (c.length - q)) := by
+  have h := remove_x923 p hs st c
+  constructor
+  · rw [← x923Unpad_isSome_iff, ← h]
+    cases p.remove st c <;> simp [okOf]
+  · intro r hr
+    rw [hr] at h
+    simp only [okOf, x923Unpad] at h
+    cases hq : c.getLast? with
+    | none => rw [hq] at h; simp at h
+    | some q =>
+      rw [hq] at h; simp only at h
+      split at h
+      · exact ⟨q, rfl, by simpa using h⟩
+      · simp at h
+
+/-! ### requests that cannot be met are refused (no block, an exception, the object unchanged) -/
+
+/-- a block size that is not a whole number of bytes is refused by the constructor -/
+theorem refuse_blocksize (s : Model.Scheme) (l : Nat) (h : l % 8 ≠ 0) : ∃ e, Padder.mk? s l = .error e := by
+  simp [Padder.mk?, h]
+
+/-- … and every other positive block size is accepted -/
+theorem accept_blocksize (s : Model.Scheme) (l : Nat) (h : l % 8 = 0) (hpos : 0 < l) :
+    Padder.mk? s l = .ok ⟨s, l⟩ := by
+  have : ¬ l = 0 := by omega
+  simp [Padder.mk?, h, this]
 
 /-- a second message after the pad is refused, whatever the scheme, arguments and counters -/
 theorem refuse_after_pad (p : Padder) (st : PadState) (m : List Nat) (L : Option Nat) (padding : Bool)
@@ -13,5 +182,196 @@ theorem refuse_after_pad (p : Padder) (st : PadState) (m : List Nat) (L : Option
     (p.iterblocks st m L padding).yields = [] ∧ (p.iterblocks st m L padding).err.isSome ∧
       (p.iterblocks st m L padding).final = st := by
   simp [Padder.iterblocks, h]
+
+/-- a bit length beyond the data is refused -/
+theorem refuse_bitlen_beyond (p : Padder) (st : PadState) (m : List Nat) (L : Nat) (padding : Bool)
+    (h : L > 8 * m.length) :
+    (p.iterblocks st m (some L) padding).yields = [] ∧ (p.iterblocks st m (some L) padding).err.isSome ∧
+      (p.iterblocks st m (some L) padding).final = st := by
+  by_cases hf : st.padflag = true <;> simp [Padder.iterblocks, hf, h]
+
+/-- unpadded input that is not a whole number of blocks is refused -/
+theorem refuse_unpadded_nonmultiple (p : Padder) (st : PadState) (m : List Nat) (L : Option Nat)
+    (h : effLen m L % p.blocksize ≠ 0) :
+    (p.iterblocks st m L false).yields = [] ∧ (p.iterblocks st m L false).err.isSome ∧
+      (p.iterblocks st m L false).final = st := by
+  have h' : L.getD (8 * m.length) % p.blocksize > 0 := by unfold effLen at h; omega
+  by_cases hf : st.padflag = true
+  · simp [Padder.iterblocks, hf]
+  · by_cases hl : L.getD (8 * m.length) > 8 * m.length <;> simp [Padder.iterblocks, hf, hl, h']
+
+/-! ### unpadded (`padding=False`) pieces: whole blocks out, counters accumulate -/
+
+/-- an unpadded call on a whole number of blocks emits exactly those blocks, reports after block i the bits fed so
+    far, leaves padcnt and padflag alone and adds the bit length to the counter (an empty piece emits nothing) -/
+theorem unpadded_call (p : Padder) (hv : Valid p) (st : PadState) (hflag : st.padflag = false)
+    (m : List Nat) (L : Option Nat) (hL : effLen m L ≤ 8 * m.length) (hmul : effLen m L % p.blocksize = 0) :
+    (p.iterblocks st m L false).err = none ∧
+    ((p.iterblocks st m L false).yields.map (·.1)).flatten = m.take (effLen m L / 8) ∧
+    (p.iterblocks st m L false).yields.length = effLen m L / p.blocksize ∧
+    (∀ i (h : i < (p.iterblocks st m L false).yields.length),
+      ((p.iterblocks st m L false).yields[i]).1.length = p.blocklen ∧
+      ((p.iterblocks st m L false).yields[i]).2 = { st with bitcnt := st.bitcnt + (i + 1) * p.blocksize }) ∧
+    (p.iterblocks st m L false).final = { st with bitcnt := st.bitcnt + effLen m L } := by
+  rw [unpadded_run p hv.pos st hflag m L hL hmul]
+  have hB := hv.size_eq
+  obtain ⟨n, hn⟩ : ∃ n, effLen m L = n * p.blocksize :=
+    ⟨effLen m L / p.blocksize, by rw [Nat.div_mul_cancel (Nat.dvd_of_mod_eq_zero hmul)]⟩
+  have hd : effLen m L / p.blocksize = n := by rw [hn, Nat.mul_div_cancel _ hv.pos]
+  have h8 : effLen m L / 8 = n * p.blocklen := by rw [hn, hB, Nat.mul_left_comm]; omega
+  refine ⟨rfl, ?_, by simp [loopYields_length], ?_, rfl⟩
+  · simp only [loopYields_blocks, flatten_blocks, hd, h8]
+  · intro i h
+    simp only [loopYields_length, hd] at h
+    simp only [loopYields_getElem, blockAt_length, and_true]
+    have : (i + 1) * p.blocklen ≤ n * p.blocklen := Nat.mul_le_mul_right _ (by omega)
+    rw [Nat.succ_mul] at this
+    have : n * p.blocksize = 8 * (n * p.blocklen) := by rw [hB, Nat.mul_left_comm]
+    omega
+
+/-! ### histories -/
+
+/-- **continuation** (what incremental hashing relies on): block-aligned data fed with `padding=False`, then a
+    final call whose piece carries at least one message bit, yields exactly the blocks, the states observable at
+    every block, the final state and the outcome of ONE call on the concatenation — for every scheme, every bit
+    length of the last piece, every starting counter (so it iterates over any number of pieces) -/
+theorem continuation (p : Padder) (hv : Valid p) (st : PadState) (hflag : st.padflag = false)
+    (m1 m2 : List Nat) (hm1 : (8 * m1.length) % p.blocksize = 0)
+    (L2 : Option Nat) (hL2 : effLen m2 L2 ≤ 8 * m2.length) (hpos2 : 0 < effLen m2 L2) :
+    let r1 := p.iterblocks st m1 none false
+    let r2 := p.iterblocks r1.final m2 L2 true
+    let one := p.iterblocks st (m1 ++ m2) (L2.map (8 * m1.length + ·)) true
+    r1.err = none ∧ one.yields = r1.yields ++ r2.yields ∧ one.final = r2.final ∧ one.err = r2.err := by
+  intro r1 r2 one
+  have hB := hv.size_eq
+  have hr1 : r1 = ⟨p.loopYields st m1 (8 * m1.length / p.blocksize), { st with bitcnt := st.bitcnt + 8 * m1.length }, none⟩ :=
+    unpadded_run p hv.pos st hflag m1 none (Nat.le_refl _) hm1
+  obtain ⟨n1, hn1⟩ : ∃ n, 8 * m1.length = n * p.blocksize :=
+    ⟨8 * m1.length / p.blocksize, by rw [Nat.div_mul_cancel (Nat.dvd_of_mod_eq_zero hm1)]⟩
+  have hd : 8 * m1.length / p.blocksize = n1 := by rw [hn1, Nat.mul_div_cancel _ hv.pos]
+  have hlen : m1.length = n1 * p.blocklen := by
+    have : n1 * p.blocksize = 8 * (n1 * p.blocklen) := by rw [hB, Nat.mul_left_comm]
+    omega
+  have hc := continuation_eq p hB hv.blocklen_pos st hflag m1 m2 n1 hlen L2 hL2 hpos2
+  have hone : one = _ := hc
+  refine ⟨by rw [hr1], ?_, ?_, ?_⟩ <;> rw [hone] <;> simp only [r2, hr1, hd]
+
+/-- **continuation with an empty last piece** (schemes that always pad: bit, PKCS#7, X9.23, MD, SHA, BLAKE):
+    block-aligned non-empty data fed with `padding=False`, then a final call on the empty string, emits the same
+    blocks with the same bit counters (the padding-only block reports 0) and leaves the same final state as ONE
+    call on the data; neither raises.  (The pad flag observed at the last data block differs: it is emitted before
+    the final call.  Zero padding and the unpadded scheme are excluded: their last full block is already out, so
+    the empty final call pads/emits an empty piece of its own.) -/
+theorem continuation_empty (p : Padder) (hv : Valid p) (hap : AlwaysPads p.scheme) (st : PadState)
+    (hflag : st.padflag = false) (m1 : List Nat) (hm : Bytes m1) (hne : m1 ≠ [])
+    (hm1 : (8 * m1.length) % p.blocksize = 0) :
+    let r1 := p.iterblocks st m1 none false
+    let r2 := p.iterblocks r1.final [] none true
+    let one := p.iterblocks st m1 none true
+    r1.err = none ∧ r2.err = none ∧ one.err = none ∧
+    one.yields.map (·.1) = r1.yields.map (·.1) ++ r2.yields.map (·.1) ∧
+    one.yields.map (·.2.bitcnt) = r1.yields.map (·.2.bitcnt) ++ r2.yields.map (·.2.bitcnt) ∧
+    one.final = r2.final := by
+  intro r1 r2 one
+  obtain ⟨n1, hn1⟩ : ∃ n, 8 * m1.length = n * p.blocksize :=
+    ⟨8 * m1.length / p.blocksize, by rw [Nat.div_mul_cancel (Nat.dvd_of_mod_eq_zero hm1)]⟩
+  have hpos1 : 0 < m1.length := List.length_pos_iff.mpr hne
+  have hn0 : n1 ≠ 0 := by intro h; rw [h] at hn1; omega
+  obtain ⟨n, rfl⟩ : ∃ n, n1 = n + 1 := ⟨n1 - 1, by omega⟩
+  have hr1 : r1 = ⟨p.loopYields st m1 (8 * m1.length / p.blocksize), { st with bitcnt := st.bitcnt + 8 * m1.length }, none⟩ :=
+    unpadded_run p hv.pos st hflag m1 none (Nat.le_refl _) hm1
+  have hd : 8 * m1.length / p.blocksize = n + 1 := by rw [hn1, Nat.mul_div_cancel _ hv.pos]
+  obtain ⟨hone, htwo⟩ := continuation_empty_eq p hv hap st hflag m1 hm n hn1
+  have hf : r1.final = { st with bitcnt := st.bitcnt + 8 * m1.length } := by rw [hr1]
+  have h2 : r2 = p.iterblocks { st with bitcnt := st.bitcnt + 8 * m1.length } [] none true := by
+    simp only [r2, hf]
+  have h1 : one = p.iterblocks st m1 none true := rfl
+  rw [h1, h2, hone, htwo, hr1, hd, loopYields_succ]
+  simp [hn1]
+
+/-- a history on a fresh object — block-aligned data with `padding=False`, then a final piece with at least one
+    message bit — emits, all calls together, exactly the standard's padded string of the whole message -/
+theorem pieces_concat (p : Padder) (hv : Valid p) (m1 m2 : List Nat) (hb1 : Bytes m1) (hb2 : Bytes m2)
+    (hm1 : (8 * m1.length) % p.blocksize = 0)
+    (L2 : Option Nat) (hL2 : effLen m2 L2 ≤ 8 * m2.length) (hpos2 : 0 < effLen m2 L2)
+    (hbg : L2 ≠ none → BitGranular p.scheme) :
+    let r1 := p.iterblocks {} m1 none false
+    let r2 := p.iterblocks r1.final m2 L2 true
+    r1.err = none ∧ r2.err = none ∧
+    ((r1.yields ++ r2.yields).map (·.1)).flatten
+      = padBytes (specOf p.scheme) p.blocksize (m1 ++ m2) (8 * m1.length + effLen m2 L2) := by
+  intro r1 r2
+  obtain ⟨h1, h2, _, h4⟩ := continuation p hv {} rfl m1 m2 hm1 L2 hL2 hpos2
+  have he : effLen (m1 ++ m2) (L2.map (8 * m1.length + ·)) = 8 * m1.length + effLen m2 L2 := by
+    cases L2 <;> simp [effLen, Nat.mul_add]
+  have hL : effLen (m1 ++ m2) (L2.map (8 * m1.length + ·)) ≤ 8 * (m1 ++ m2).length := by
+    rw [he, List.length_append]; omega
+  obtain ⟨g1, g2⟩ := blocks_concat p hv {} rfl rfl (m1 ++ m2) (Bytes_append hb1 hb2) (L2.map (8 * m1.length + ·)) hL
+    (by intro h; apply hbg; intro h0; rw [h0] at h; simp at h)
+  refine ⟨h1, ?_, ?_⟩
+  · show r2.err = none
+    rw [← h4]; exact g1
+  · show ((r1.yields ++ r2.yields).map (·.1)).flatten = _
+    rw [← h2, g2, he]
+
+/-- once a padded call has completed, every further call on the object is refused and changes nothing -/
+theorem call_after_final_refused (p : Padder) (hv : Valid p) (st : PadState) (hflag : st.padflag = false)
+    (m : List Nat) (hm : Bytes m) (L : Option Nat) (hL : effLen m L ≤ 8 * m.length)
+    (hbg : L ≠ none → BitGranular p.scheme) (m' : List Nat) (L' : Option Nat) (padding' : Bool) :
+    let fin := (p.iterblocks st m L true).final
+    (p.iterblocks fin m' L' padding').yields = [] ∧ (p.iterblocks fin m' L' padding').err.isSome ∧
+      (p.iterblocks fin m' L' padding').final = fin :=
+  refuse_after_pad p _ m' L' padding' (padflag_law p hv st hflag m hm L hL hbg).1
+
+/-- two unpadded pieces in a row behave like one unpadded call on their concatenation -/
+theorem unpadded_append (p : Padder) (hv : Valid p) (st : PadState) (hflag : st.padflag = false)
+    (m1 m2 : List Nat) (hm1 : (8 * m1.length) % p.blocksize = 0) (hm2 : (8 * m2.length) % p.blocksize = 0) :
+    let r1 := p.iterblocks st m1 none false
+    let r2 := p.iterblocks r1.final m2 none false
+    let one := p.iterblocks st (m1 ++ m2) none false
+    one.yields = r1.yields ++ r2.yields ∧ one.final = r2.final ∧ one.err = none ∧ r1.err = none ∧ r2.err = none := by
+  intro r1 r2 one
+  have hB := hv.size_eq
+  have hr1 : r1 = _ := unpadded_run p hv.pos st hflag m1 none (Nat.le_refl _) hm1
+  have hr2 : r2 = _ := unpadded_run p hv.pos r1.final (by rw [hr1]; exact hflag) m2 none (Nat.le_refl _) hm2
+  have h12 : (8 * (m1 ++ m2).length) % p.blocksize = 0 := by
+    rw [List.length_append, Nat.mul_add, Nat.add_mod, hm1, hm2]; simp
+  have hone : one = _ := unpadded_run p hv.pos st hflag (m1 ++ m2) none (Nat.le_refl _) h12
+  obtain ⟨n1, hn1⟩ : ∃ n, 8 * m1.length = n * p.blocksize :=
+    ⟨8 * m1.length / p.blocksize, by rw [Nat.div_mul_cancel (Nat.dvd_of_mod_eq_zero hm1)]⟩
+  obtain ⟨n2, hn2⟩ : ∃ n, 8 * m2.length = n * p.blocksize :=
+    ⟨8 * m2.length / p.blocksize, by rw [Nat.div_mul_cancel (Nat.dvd_of_mod_eq_zero hm2)]⟩
+  have hlen : m1.length = n1 * p.blocklen := by
+    have : n1 * p.blocksize = 8 * (n1 * p.blocklen) := by rw [hB, Nat.mul_left_comm]
+    omega
+  have e12 : 8 * (m1 ++ m2).length = (n1 + n2) * p.blocksize := by rw [List.length_append, Nat.add_mul]; omega
+  have hfin1 : r1.final = { st with bitcnt := st.bitcnt + n1 * p.blocksize } := by rw [hr1]; simp [effLen, hn1]
+  rw [hfin1] at hr2
+  rw [hone, hr2, hr1]
+  simp only [effLen, Option.getD_none, e12, hn1, hn2, Nat.mul_div_cancel _ hv.pos,
+    loopYields_append p st m1 m2 n1 n2 hlen, and_true, true_and]
+  simp [Nat.add_mul, Nat.add_assoc]
+
+/-! ### non-vacuity: the hypotheses are inhabited by the library's real configurations -/
+
+example : Valid ⟨.md 32, 512⟩ := ⟨by decide, by decide, by decide⟩
+example : Valid ⟨.sha 64, 1024⟩ := ⟨by decide, by decide, by decide⟩
+example : Valid (Padder.blakeP 256) := ⟨by decide, by decide, rfl⟩
+example : Valid (Padder.blakeP 384) := ⟨by decide, by decide, rfl⟩
+example : Valid ⟨.pkcs7, 128⟩ := ⟨by decide, by decide, by decide⟩
+example : Valid ⟨.x923, 64⟩ := ⟨by decide, by decide, by decide⟩
+example : Valid ⟨.bit, 8⟩ := ⟨by decide, by decide, trivial⟩
+example : Valid ⟨.null, 3072⟩ := ⟨by decide, by decide, trivial⟩
+example : Valid ⟨.no, 16⟩ := ⟨by decide, by decide, trivial⟩
+example : Bytes [0x61, 0x62, 0x63] := by intro x hx; simp at hx; omega
+example : AlwaysPads (Padder.blakeP 512).scheme := trivial
+example : BitGranular (Model.Scheme.sha 32) := trivial
+/-- FIPS 180-4 §5.1.1's example: "abc" under SHA-1/SHA-256 padding is 61626380 0…0 00000018 (one 64-byte block) -/
+example : ((⟨.sha 32, 512⟩ : Padder).iterblocks {} [0x61, 0x62, 0x63] none true).yields.map (·.1)
+    = [[0x61, 0x62, 0x63, 0x80] ++ List.replicate 59 0 ++ [0x18]] := by decide +kernel
+example : pkcs7WellPadded 8 [1, 2, 3, 3, 3] := ⟨3, rfl, by decide, by decide, by decide, rfl⟩
+example : ¬ pkcs7WellPadded 8 [1, 2, 3, 2, 3] := by
+  rintro ⟨q, h1, _, _, _, h5⟩
+  simp at h1; subst h1; simp at h5
 
 end Proofs.C09
